@@ -3,6 +3,7 @@ package c01
 
 import (
 	"fmt"
+	"strings"
 	"testing"
 
 	"github.com/dcaiafa/lox/verifharness/lib/cfggen"
@@ -302,10 +303,12 @@ func TestC01(t *testing.T) {
 				continue
 			}
 			fc := &Case{G: c.G, Inputs: [][]int{bad[i]}, Lox: c.Lox}
-			fc = shrinkC(run, fc)
-			_, d, _ := evalC(run, []*Case{fc}, false)
-			if d != nil && d[0] != "" {
-				details[i] = d[0]
+			if !strings.Contains(details[i], "TIMEOUT") {
+				fc = shrinkC(run, fc)
+				_, d, _ := evalC(run, []*Case{fc}, false)
+				if d != nil && d[0] != "" {
+					details[i] = d[0]
+				}
 			}
 			report(fc, details[i])
 			return
